@@ -53,11 +53,13 @@ def _step(state, st: str, out: OutputCollector, ctx: CallContext, inp) -> None:
     log = getattr(TRACE, "server_log", None)
     if log is not None:
         log.append(("process", state.x, st))
-    if st in ("logemit", "lograise"):
+    if st in ("logemit", "lograise", "log2emit"):
         ctx.client_log(_level(), f"log for {state.x}")
+    if st == "log2emit":
+        ctx.client_log(_level(), f"second log for {state.x}")
     if st in ("raise", "lograise"):
         raise ValueError(f"process boom x={state.x}")
-    if st in ("emit", "logemit", "emitfin"):
+    if st in ("emit", "logemit", "log2emit", "emitfin"):
         state.nd += 1
         out.emit_pydict({"v": [state.x * 100 + state.nd]})
     if st in ("fin", "emitfin"):
@@ -145,6 +147,8 @@ def run_script(methods_by_name: dict, pair_factory, server_proto, impl, client_p
     state = {"raise_in_log": False, "quiet": False, "nlogs": 0, "x": None, "own": True}
 
     def on_log(msg):
+        if state["raise_in_log"]:
+            raise CallbackBoom("log callback raised")
         if state["quiet"]:
             return
         state["nlogs"] += 1
@@ -164,7 +168,7 @@ def run_script(methods_by_name: dict, pair_factory, server_proto, impl, client_p
         with RpcConnection(client_proto, ct, on_log=on_log) as px:
             for call, x in zip(calls, xs):
                 m = methods_by_name[call["m"]]
-                state.update(raise_in_log=(call["ops"] == ["L"]), quiet=False, nlogs=0, x=x, own=True, pending=[])
+                state.update(raise_in_log=(call["ops"][:1] == ["L"]), quiet=False, nlogs=0, x=x, own=True, pending=[])
                 arg = str(x) if m["badp"] else x
                 try:
                     if m["k"] == "unary":
@@ -207,6 +211,10 @@ def run_script(methods_by_name: dict, pair_factory, server_proto, impl, client_p
                                 ab = sess.tick()
                             else:
                                 ab = sess.exchange(AnnotatedBatch(batch=pa.RecordBatch.from_pydict({"a": [1]}, schema=INP)))
+                        except CallbackBoom:
+                            obs.extend(state["pending"])
+                            obs.append(["callback_raised"])
+                            return "boom"
                         except StopIteration:
                             obs.extend(state["pending"])
                             obs.append(["stop"])
@@ -228,11 +236,18 @@ def run_script(methods_by_name: dict, pair_factory, server_proto, impl, client_p
                         obs.append(["data", v % 100])
                         return False
 
-                    for op in call["ops"]:
+                    ops = [o for o in call["ops"] if o != "L"]
+                    oi = 0
+                    while oi < len(ops):
+                        op = ops[oi]
+                        oi += 1
                         if ended:
                             break
                         if op == "t":
                             ended = one_tick()
+                            if ended == "boom":      # callback raised out of tick(): go to the script's exit op
+                                ended = False
+                                oi = len(ops) - 1
                         elif op == "i":
                             while not ended:
                                 ended = one_tick()
